@@ -37,6 +37,7 @@ PROPS = {
         ],
     },
     'C07': {
+        'native': ['c07_'],
         'units': ['utxo'],
         'kani_quick': ['tx_outpoint_to_bytes_layout'],
         'kani_thorough': [],
@@ -49,6 +50,7 @@ PROPS = {
         ],
     },
     'C08': {
+        'native': ['c08_', 'c07_'],
         'units': ['utxo'],
         'kani_quick': [],
         'kani_thorough': [],
